@@ -190,6 +190,49 @@ func safeVerify(e *hg.Event) (ok bool) {
 	return ok
 }
 
+// ---- text validation (lands in /repo with common.EncodableString; detected by reflection so that
+// the harness builds before and after) ----
+
+// frameValidator: (present, accepts)
+func frameValidator(f *hg.Frame) (bool, bool) {
+	m := reflect.ValueOf(f).MethodByName("ValidateText")
+	if !m.IsValid() || m.Type().NumIn() != 0 || m.Type().NumOut() != 1 {
+		return false, true
+	}
+	r := m.Call(nil)[0]
+	switch r.Kind() {
+	case reflect.Bool:
+		return true, r.Bool()
+	case reflect.Interface, reflect.Ptr:
+		return true, r.IsNil()
+	}
+	return true, false
+}
+
+func validatorPresent() bool {
+	p, _ := frameValidator(&hg.Frame{})
+	return p
+}
+
+// textLine prints a C15 T case: the implementation's verdict on the text of an object
+func (w *world) textLine(kind string, print func(t *tw), verdict bool) {
+	if !validatorPresent() {
+		w.stats["text-validator-absent"]++
+		return
+	}
+	t := &tw{a: w.a}
+	t.tok("C15 T " + kind)
+	print(t)
+	t.tok("=>")
+	if verdict {
+		t.tok("ok")
+	} else {
+		t.tok("bad")
+	}
+	fmt.Fprintln(out, t.String())
+	w.stats["text:"+kind+":"+map[bool]string{true: "ok", false: "bad"}[verdict]]++
+}
+
 func safeItxVerify(t *hg.InternalTransaction) (ok bool) {
 	defer func() {
 		if r := recover(); r != nil {
@@ -393,7 +436,7 @@ func (s *scen) storeTokens(t *tw, h *hg.Hashgraph, pe [][2]int, evs []string) {
 
 func (s *scen) regEvent(e *hg.Event) {
 	s.w.a.S(e.Hex())
-	s.w.a.S(e.Signature)
+	s.w.a.G(e.Signature)
 }
 
 // makeEvent builds and signs an event of the given shape on top of the current DAG.
@@ -426,8 +469,11 @@ func (s *scen) readCase(path string, h *hg.Hashgraph, orig *hg.Event, we hg.Wire
 	}
 	s.storeTokens(t, h, [][2]int{{int(we.Body.CreatorID), we.Body.SelfParentIndex}, {int(we.Body.OtherParentCreatorID), we.Body.OtherParentIndex}}, nil)
 	t.tok("|")
+	verBefore := false
 	if orig != nil {
 		t.event(orig)
+		verBefore = safeVerify(orig)
+		t.tok(fmt.Sprintf("v%d", b2i(verBefore)))
 	} else {
 		t.wevent(&we)
 	}
@@ -465,7 +511,7 @@ func (s *scen) readCase(path string, h *hg.Hashgraph, orig *hg.Event, we hg.Wire
 		if !same {
 			violation("hash-changed-through-wire-"+path, tag)
 		}
-		if !ver {
+		if ver != verBefore {
 			violation("signature-invalid-after-wire-"+path, tag)
 		}
 		if !payloadSame(orig, ev) || ev.Signature != orig.Signature {
@@ -484,6 +530,8 @@ func (s *scen) dbCase(path string, ev *hg.Event, get func() (*hg.Event, error), 
 	t := &tw{a: s.w.a}
 	t.tok("C15 D " + path)
 	t.event(ev)
+	verBefore := safeVerify(ev)
+	t.tok(fmt.Sprintf("v%d", b2i(verBefore)))
 	t.tok("=>")
 	before := ev.Hex()
 	got, err := get()
@@ -505,7 +553,7 @@ func (s *scen) dbCase(path string, ev *hg.Event, get func() (*hg.Event, error), 
 		if !same {
 			violation("hash-changed-through-"+path, tag)
 		}
-		if !ver {
+		if ver != verBefore {
 			violation("signature-invalid-after-"+path, tag)
 		}
 		if !payloadSame(ev, got) {
@@ -543,12 +591,18 @@ func (s *scen) step(sh evShape) {
 		return
 	}
 	e, _ := s.makeEvent(creator, sp, op, sh)
+	w.textLine("event", func(t *tw) { t.event(e) }, safeVerify(e))
 	pc := fmt.Sprintf("sp%d-op%d", b2i(sp != ""), b2i(op != ""))
 	tag := sh.String() + "/" + pc
 	w.shape[tag]++
 	hostile := sh.hostile()
 
-	// sender side: SetWireInfo (through InsertEvent for events that join the DAG)
+	// sender side: SetWireInfo (through InsertEvent for events that join the DAG).  An event that the
+	// sender's own Event.Verify refuses (text validation) is a leaf probe like the hostile shapes.
+	if !hostile && !safeVerify(e) {
+		hostile = true
+		w.stats["refused-by-verify:"+sh.String()]++
+	}
 	if hostile {
 		if err := s.A.SetWireInfo(e); err != nil {
 			die("SetWireInfo(hostile): %v", err)
@@ -739,10 +793,13 @@ func (w *world) itxCases(l *links, n int) {
 	for i := 0; i < n; i++ {
 		shape := i % len(strShapeNames)
 		it := w.itx(w.rng.Intn(nKeys), shape)
+		w.textLine("itx", func(t *tw) { t.itx(&it) }, safeItxVerify(&it))
 		for _, path := range []string{"json", "tcpj"} {
 			t := &tw{a: w.a}
 			t.tok("C15 I " + path)
 			t.itx(&it)
+			verBefore := safeItxVerify(&it)
+			t.tok(fmt.Sprintf("v%d", b2i(verBefore)))
 			t.tok("=>")
 			var got hg.InternalTransaction
 			if path == "json" {
@@ -773,7 +830,7 @@ func (w *world) itxCases(l *links, n int) {
 				if !same {
 					violation("hash-changed-through-itx-"+path, strShapeNames[shape])
 				}
-				if !ver {
+				if ver != verBefore {
 					violation("signature-invalid-after-itx-"+path, strShapeNames[shape])
 				}
 			} else {
@@ -814,8 +871,12 @@ func main() {
 	quiet = logrus.NewEntry(lg)
 
 	w := newWorld(seed)
+	if only == "join:ff" {
+		w.ffRun()
+		return
+	}
 	if strings.HasPrefix(only, "join:") {
-		w.joinRun(map[string]string{"baseline": "joiner", "ufffd": "\ufffd"}[only[5:]])
+		w.joinRun(only[5:])
 		return
 	}
 	if only != "" {
@@ -828,7 +889,7 @@ func main() {
 	if *replay != "" {
 		switch *replay {
 		case "ufffd-join":
-			w.replayJoin()
+			w.replayJoin(l)
 		case "rewire":
 			w.replayRewire(l)
 		default:
